@@ -1,6 +1,7 @@
 package main
 
 import (
+	"regexp"
 	"encoding/json"
 	"fmt"
 	"os"
@@ -150,8 +151,16 @@ func report(o opts, e *Engine, prop, tier string, seed int, sel []*Obligation, f
 		}
 		samples = append(samples, s)
 	}
+	nKnown := 0
+	for _, ev := range evs {
+		if strings.HasPrefix(ev.Status, "known-finding") {
+			nKnown++
+		}
+	}
 	cov := map[string]interface{}{
-		"obligations":              len(sel),
+		"obligations":              len(sel) - nKnown,
+		"known_finding_obligations": nKnown,
+		"obligations_generated":    len(sel),
 		"discharged":               discharged,
 		"checker_cmd":              fmt.Sprintf("bin/check %s %s   (govc: WP over go/ssa of /repo's working tree; per-obligation portfolio z3-new|z3|cvc5, timeout %ds)", prop, tier, timeout),
 		"trusted_base":             trusted,
@@ -189,11 +198,12 @@ func oneLine(s string) string {
 	return strings.ReplaceAll(s, " ", "_")
 }
 
+var ordinalRe = regexp.MustCompile(`(@return[0-9]+)?(~[0-9]+)?$`)
+
+// stripOrdinal removes the position-dependent suffixes of an obligation id (return ordinal, duplicate counter),
+// leaving <func>#<kind>:<label> - the key used in known_findings.json.
 func stripOrdinal(id string) string {
-	if i := strings.LastIndex(id, "~"); i >= 0 {
-		return id[:i]
-	}
-	return id
+	return ordinalRe.ReplaceAllString(id, "")
 }
 
 func round3(x float64) float64 { return float64(int(x*1000+0.5)) / 1000 }
